@@ -83,13 +83,14 @@ def build_lean(targets):
     return rc, out
 
 
-def build_harness(tags="verif", outname="corr"):
+def build_harness(tags="verif", outname="corr", race=False):
     """compile the harness against /repo's *current working tree*"""
     os.makedirs(BIN, exist_ok=True)
     with Lock("go"):
         # go.sum of the harness must cover /repo's dependencies
         shutil.copyfile("/repo/go.sum", os.path.join(GO, "go.sum"))
-        rc, out = run(["go", "build", "-tags", tags, "-o", os.path.join(BIN, outname), "./cmd/corr"], cwd=GO, env=goenv())
+        cmd = ["go", "build"] + (["-race"] if race else []) + ["-tags", tags, "-o", os.path.join(BIN, outname), "./cmd/corr"]
+        rc, out = run(cmd, cwd=GO, env=goenv())
     return rc, out
 
 
@@ -116,7 +117,7 @@ def theorems_of(pid):
     p = os.path.join(LEAN, "Coraza", "Properties", pid + ".lean")
     txt = open(p).read()
     txt = re.sub(r"/-.*?-/", "", txt, flags=re.S)
-    return re.findall(r"^theorem\s+([A-Za-z0-9_.']+)", txt, flags=re.M)
+    return re.findall(r"^theorem\s+([^\s(:{\[]+)", txt, flags=re.M)
 
 
 def axiom_audit(pid, names):
@@ -336,14 +337,27 @@ def check(pid, tier, seed):
             corpus_n += len(clhs)
         n = eng[tier] if tier in eng else eng["quick"]
         shards = eng.get("shards", 1) if tier == "thorough" else 1
+        binary = CORR
+        penv = dict(os.environ)
+        if eng.get("race"):
+            # this engine runs under the Go race detector; its reports go to .work/tmp/race.*
+            rcb, outb = build_harness(outname="corr.race", race=True)
+            if rcb != 0:
+                bad.append((ename, f"{ename} <race build failed> {outb[-500:]!r}", "E build"))
+                continue
+            binary = os.path.join(BIN, "corr.race")
+            penv["GORACE"] = "log_path=" + os.path.join(WORK, "tmp", "race") + " halt_on_error=0"
+            for f in os.listdir(os.path.join(WORK, "tmp")):
+                if f.startswith("race."):
+                    os.remove(os.path.join(WORK, "tmp", f))
         procs = []
         for s in range(shards):
             cases = os.path.join(wd, f"{ename}.{s}.cases")
             stats = os.path.join(wd, f"{ename}.{s}.stats")
-            cmd = [CORR, ename, "-seed", str(seed * 1000 + s), "-n", str(n // shards), "-tier", tier, "-out", cases, "-stats", stats]
+            cmd = [binary, ename, "-seed", str(seed * 1000 + s), "-n", str(n // shards), "-tier", tier, "-out", cases, "-stats", stats]
             if eng.get("arg"):
                 cmd += ["-arg", eng["arg"]]
-            procs.append((subprocess.Popen(cmd, cwd=ROOT, stdout=subprocess.PIPE, stderr=subprocess.STDOUT, text=True), cases, stats))
+            procs.append((subprocess.Popen(cmd, cwd=ROOT, env=penv, stdout=subprocess.PIPE, stderr=subprocess.STDOUT, text=True), cases, stats))
         for pr, cases, stats in procs:
             o, _ = pr.communicate()
             if pr.returncode != 0:
